@@ -162,7 +162,7 @@ class DualAveragingStepSize(Adaptor):
 
     def load_state_dict(self, state_dict: dict[str, Any]) -> None:
         self._call_counter = state_dict["call_counter"]
-        self._accepted = state_dict["accepted"]
+        self._dual_avg._counter = state_dict["counter"]
         self._dual_avg.x = state_dict["x"]
         self._dual_avg.x_bar = state_dict["x_bar"]
         self._dual_avg.s_bar = state_dict["s_bar"]
